@@ -305,6 +305,16 @@ def member_unit():
 # the slice bounds are `a b : Option Int` (`val.start`, `val.stop` as instants; `default_to_zulu` pinned as for SrcColl);
 # `x.start` / `x.end` of a member are the model's `startD` / `endD` (a Track holds no time-less shape); `Track(xs)` is
 # the model's `mkTrack`; the local set `_ts` is the list of its elements, newest first.
+#
+# round 2 — the rest of the class: `first` / `last` / `start` / `end` (`xs[0]`, `xs[-1]` with Python's index rule),
+# `time_start_diffs` / `centroid_distances` (`[f(x, y) for x, y in zip(xs, xs[1:])]` -> `List.map`, `np.array` the
+# identity), `copy`, `__eq__` (one instance per class of the other operand; `xs == ys` on member lists is pairwise
+# `x is y or x == y`), `convolve_duplicate_timestamps` (the `defaultdict(list)` is an insertion-ordered association list,
+# `d[k].append(v)` is `GV.Py.ddAppend`; the loop over `.items()` with `continue`; `list(zip(*pairs))`, `sum`, `/` — which
+# raises on a zero divisor —, the dict comprehension and the `GeoPoint(Coordinate(…), _ts, properties=…)` record),
+# `filter_by_time` (`.time()` of an instant is the model's `tod`), `filter_impossible_journeys` (`range`, `len`, lists indexed
+# by the int variables `i`, `j` — every lookup may raise IndexError —, `continue`, `np.isnan` of an exact rational is
+# False).  The haversine distance of two centroids is the parameter `dist` of the two shapes: nothing is assumed of it.
 
 def track_unit():
     src = py2lean.Source(_repo('collections.py'))
@@ -366,7 +376,7 @@ def track_unit():
         return args[0]
 
     def np_isnan(tr, args):
-        if [x.typ for x in args] != ['R']:
+        if [x.typ for x in args] not in (['R'], ['Int']):
             raise Unsupported('np.isnan(' + ', '.join(x.typ for x in args) + ')')
         return Val('false', 'Bool')                   # an exact rational is a number
 
